@@ -1829,6 +1829,12 @@ def setitem_array(out_name, array, indices, value):
         zip(array_common_shape, value_common_shape, common_positions)
     ):
         index = indices[j]
+        if b == 1:
+            # The value is broadcast along this dimension, whatever the
+            # kind of index
+            base_value_indices.append(slice(None))
+            continue
+
         if is_dask_collection(index) and index.dtype == bool:
             if math.isnan(b) or b <= index.size:
                 base_value_indices.append(None)
@@ -1842,9 +1848,7 @@ def setitem_array(out_name, array, indices, value):
 
             continue
 
-        if b == 1:
-            base_value_indices.append(slice(None))
-        elif a == b:
+        if a == b:
             base_value_indices.append(None)
             non_broadcast_dimensions.append(i)
         elif math.isnan(a):
